@@ -196,4 +196,51 @@ func VerifH_C15_status() {
 	if wantActive > 0 && wantQueued > 0 {
 		vz.Cover("active-and-queued")
 	}
+	// every reference identifies the Job that is in the cache (not merely its name)
+	checkRefs := func(st execution.JobConfigStatus) {
+		for _, list := range [][]execution.JobReference{st.ActiveJobs, st.QueuedJobs} {
+			for _, ref := range list {
+				for _, cj := range jobs {
+					if cj.job.Name == ref.Name {
+						vz.Assert(ref.UID == cj.job.UID && ref.CreationTimestamp.Equal(&cj.job.CreationTimestamp), "C15/references-identify-the-cached-job")
+					}
+				}
+			}
+		}
+	}
+	checkRefs(st)
+	// second pass from the exact status, except that one reference still describes an
+	// earlier Job of the same name (deleted and re-created between two passes)
+	nrefs := len(st.ActiveJobs) + len(st.QueuedJobs)
+	if nrefs == 0 || !vz.Bool("staleIncarnation") {
+		return
+	}
+	rjc2 := rjc.DeepCopy()
+	rjc2.Status = *st.DeepCopy()
+	k := vz.Choice("staleRef", nrefs)
+	var ref *execution.JobReference
+	if k < len(rjc2.Status.ActiveJobs) {
+		ref = &rjc2.Status.ActiveJobs[k]
+	} else {
+		ref = &rjc2.Status.QueuedJobs[k-len(rjc2.Status.ActiveJobs)]
+	}
+	ref.UID = "u-previous-incarnation"
+	ref.CreationTimestamp = metav1.NewTime(time.Unix(50, 0))
+	ctx.jobconfigInformer = &fakes.JobConfigInformer{Inf: &fakes.SharedInformer{}, L: &fakes.JobConfigLister{Items: []*execution.JobConfig{rjc2}}}
+	written = nil
+	ncalls := len(api.Calls)
+	err2 := r.SyncOne(context.Background(), "ns", "jc", 0)
+	for _, c := range api.Calls[ncalls:] {
+		if c.Err != nil {
+			vz.Assert(err2 != nil, "C20/jobconfig-status-write-failure-is-retried")
+			return
+		}
+	}
+	vz.Assert(err2 == nil, "C15/pass-succeeds")
+	st2 := rjc2.Status
+	if written != nil {
+		st2 = written.Status
+	}
+	vz.Cover("stale-incarnation-pass")
+	checkRefs(st2)
 }
